@@ -26,6 +26,7 @@ out = ["# Independently seeded code changes", "",
        "demonstration (`demo_test.go.txt`: fails on the changed tree, passes on the original). `patch.diff` applies to /repo with",
        "`git -C /repo apply`; `tools/seeded_try.py <ID> <A|B> [--apply]` runs the checks against it (default: mapped over /repo with",
        "`-overlay`, so /repo is untouched while background runs use it; `--apply` does the literal apply / check / `git checkout -- .`).", "",
+       "Letters A, B: first round (20 agents); C, D: second round (20 more agents, asked for less obvious mechanisms).",
        "`first` = verdict of the owning check's quick tier as it stood when the change arrived; `now` = after the check was strengthened",
        "(what was added is listed in DESIGN.md 8.7).", "",
        "| Change | What was changed | Needs | first | now | Signature(s) reported |", "|---|---|---|---|---|---|"]
